@@ -5,6 +5,7 @@ import (
 	"encoding/binary"
 	"errors"
 	"fmt"
+	"io"
 	"net"
 	"net/netip"
 	"os"
@@ -51,16 +52,13 @@ type RelayCase struct {
 }
 
 var serverProtos = []string{"none", "socks5", "ss2022", "direct"}
-var clientProtos = []string{"direct", "none"}
+var clientProtos = []string{"direct", "none", "socks5"}
 
 func genRelayCase(r *common.Rng, idx int) RelayCase {
 	c := RelayCase{Kind: "udprelay", Seed: r.U64()}
 	c.Server = serverProtos[idx%4]
-	c.Batch = []string{"no", "sendmmsg"}[(idx/4)%2]
-	c.Client = clientProtos[0]
-	if (idx/8)%3 == 2 {
-		c.Client = "none"
-	}
+	c.Client = []string{"direct", "none", "ss2022", "socks5", "direct"}[(idx/4)%5]
+	c.Batch = []string{"no", "sendmmsg"}[(idx/4+idx/16)%2]
 	c.Clients = r.Range(2, 4)
 	c.Targets = r.Range(2, 3)
 	c.TunnelDom = r.Bool()
@@ -230,10 +228,12 @@ type relayProc struct {
 
 var testPSK = []byte("0123456789abcdef")
 
+var upstreamPSK = []byte("fedcba9876543210")
+
 // relayCap is the configured sendChannelCapacity (the smallest value the configuration accepts).
 const relayCap = 64
 
-func startRelay(c RelayCase, tunnel conn.Addr, upstream netip.AddrPort) (*relayProc, error) {
+func startRelay(c RelayCase, tunnel conn.Addr, upstream, upstreamTCP netip.AddrPort) (*relayProc, error) {
 	sc := service.ServerConfig{
 		Name: "s",
 		MTU:  1500,
@@ -261,6 +261,13 @@ func startRelay(c RelayCase, tunnel conn.Addr, upstream netip.AddrPort) (*relayP
 	case "none":
 		cc.Protocol = "none"
 		cc.UDPAddress = conn.AddrFromIPPort(upstream)
+	case "ss2022":
+		cc.Protocol = "2022-blake3-aes-128-gcm"
+		cc.PSK = upstreamPSK
+		cc.UDPAddress = conn.AddrFromIPPort(upstream)
+	case "socks5":
+		cc.Protocol = "socks5"
+		cc.UDPAddress = conn.AddrFromIPPort(upstreamTCP) // the SOCKS5 server's TCP address; the UDP address comes from UDP ASSOCIATE
 	default:
 		return nil, fmt.Errorf("client protocol %q", c.Client)
 	}
@@ -335,6 +342,11 @@ type relayRun struct {
 	tport    uint16
 	taddrs   []netip.Addr
 	upstream netip.AddrPort
+	upstreamTCP netip.AddrPort
+	tcpLn    net.Listener
+	upSrv    *ss2022.UDPServer                  // ss2022 upstream: the harness decodes with the repository's server codec
+	upUnp    map[uint64]zerocopy.ServerUnpacker // by client session id of the relay's upstream session
+	upPk     map[uint16]zerocopy.ServerPacker   // by relay NAT port
 
 	script []string
 	impl   []string
@@ -413,8 +425,8 @@ func (x *relayRun) setup() error {
 			return errors.New("could not bind the target sockets on one port")
 		}
 	}
-	if x.c.Client == "none" {
-		// the harness plays the upstream Shadowsocks-none proxy: one more monitored socket
+	if x.viaUpstream() {
+		// the harness plays the upstream proxy (Shadowsocks none / SOCKS5): one more monitored socket
 		u, err := listenLoop("127.0.0.1", 0)
 		if err != nil {
 			return err
@@ -422,12 +434,29 @@ func (x *relayRun) setup() error {
 		x.tg.add(u)
 		x.upstream = u.LocalAddr().(*net.UDPAddr).AddrPort()
 	}
+	if x.c.Client == "ss2022" {
+		ucc, err := ss2022.NewUserCipherConfig(upstreamPSK, true)
+		if err != nil {
+			return err
+		}
+		x.upSrv = ss2022.NewUDPServer(0, ucc, ss2022.ServerIdentityCipherConfig{}, ss2022.PadPlainDNS)
+		x.upUnp, x.upPk = map[uint64]zerocopy.ServerUnpacker{}, map[uint16]zerocopy.ServerPacker{}
+	}
+	if x.c.Client == "socks5" {
+		ln, err := net.Listen("tcp4", "127.0.0.1:0")
+		if err != nil {
+			return err
+		}
+		x.tcpLn = ln
+		x.upstreamTCP = ln.Addr().(*net.TCPAddr).AddrPort()
+		go x.serveSocks5TCP(ln)
+	}
 	tunnel := conn.AddrFromIPAndPort(x.taddrs[0], x.tport)
 	if x.c.TunnelDom {
 		tunnel = conn.MustAddrFromDomainPort(tname(0), x.tport)
 	}
 	var err error
-	x.relay, err = startRelay(x.c, tunnel, x.upstream)
+	x.relay, err = startRelay(x.c, tunnel, x.upstream, x.upstreamTCP)
 	if err != nil {
 		return err
 	}
@@ -455,7 +484,131 @@ func (x *relayRun) setup() error {
 	return nil
 }
 
+func (x *relayRun) viaUpstream() bool { return x.c.Client != "direct" }
+
+// upPrefix is what precedes the SOCKS address in a datagram exchanged with the upstream proxy.
+func (x *relayRun) upPrefix() []byte {
+	if x.c.Client == "socks5" {
+		return []byte{0, 0, 0}
+	}
+	return nil
+}
+
+// parseUpstream splits a datagram that arrived at the upstream proxy into (address inside, payload).
+func (x *relayRun) parseUpstream(b []byte, from netip.AddrPort) (tAddr, []byte, error) {
+	if x.c.Client == "ss2022" {
+		b = append([]byte(nil), b...)
+		csid, err := x.upSrv.SessionInfo(b)
+		if err != nil {
+			return tAddr{}, nil, err
+		}
+		unp := x.upUnp[csid]
+		if unp == nil {
+			if unp, _, err = x.upSrv.NewUnpacker(b, csid); err != nil {
+				return tAddr{}, nil, err
+			}
+		}
+		ta, ps, pl, err := unp.UnpackInPlace(b, from, 0, len(b))
+		if err != nil {
+			return tAddr{}, nil, err
+		}
+		if x.upUnp[csid] == nil {
+			x.upUnp[csid] = unp
+			pk, err := unp.NewPacker()
+			if err != nil {
+				return tAddr{}, nil, err
+			}
+			x.upPk[from.Port()] = pk
+		}
+		if ta.IsIP() {
+			return tAddr{ip: ta.IP().Unmap(), port: ta.Port()}, b[ps : ps+pl], nil
+		}
+		return tAddr{name: ta.Domain(), port: ta.Port()}, b[ps : ps+pl], nil
+	}
+	if x.c.Client == "socks5" {
+		if len(b) < 3 || b[0] != 0 || b[1] != 0 || b[2] != 0 {
+			return tAddr{}, nil, errors.New("bad SOCKS5 UDP header")
+		}
+		b = b[3:]
+	}
+	a, n, err := parseSocksAddr(b)
+	if err != nil {
+		return tAddr{}, nil, err
+	}
+	return a, b[n:], nil
+}
+
+// upstreamReply builds the datagram the upstream proxy sends back: (true source inside, payload).
+func (x *relayRun) upstreamReply(src netip.AddrPort, payload []byte, relayPort uint16) ([]byte, error) {
+	if x.c.Client == "ss2022" {
+		pk := x.upPk[relayPort]
+		if pk == nil {
+			return nil, fmt.Errorf("no upstream session for relay port %d", relayPort)
+		}
+		front := pk.ServerPackerInfo().Headroom.Front
+		b := make([]byte, front+len(payload)+64)
+		copy(b[front:], payload)
+		ps, pl, err := pk.PackInPlace(b, src, front, len(payload), 1452)
+		if err != nil {
+			return nil, err
+		}
+		return b[ps : ps+pl], nil
+	}
+	return append(appendSocksAddr(x.upPrefix(), tAddr{ip: src.Addr(), port: src.Port()}), payload...), nil
+}
+
+// serveSocks5TCP: the TCP side of the harness's SOCKS5 server (RFC 1928): no authentication, UDP ASSOCIATE
+// answered with the harness's upstream UDP socket; the connection stays open until the relay closes it.
+func (x *relayRun) serveSocks5TCP(ln net.Listener) {
+	for {
+		c, err := ln.Accept()
+		if err != nil {
+			return
+		}
+		go func() {
+			defer c.Close()
+			c.SetDeadline(time.Now().Add(10 * time.Minute))
+			hdr := make([]byte, 2)
+			if _, err := io.ReadFull(c, hdr); err != nil || hdr[0] != 5 {
+				return
+			}
+			if _, err := io.ReadFull(c, make([]byte, hdr[1])); err != nil {
+				return
+			}
+			c.Write([]byte{5, 0})
+			req := make([]byte, 4)
+			if _, err := io.ReadFull(c, req); err != nil || req[1] != 3 {
+				return
+			}
+			var alen int
+			switch req[3] {
+			case 1:
+				alen = 4 + 2
+			case 4:
+				alen = 16 + 2
+			case 3:
+				l := make([]byte, 1)
+				if _, err := io.ReadFull(c, l); err != nil {
+					return
+				}
+				alen = int(l[0]) + 2
+			}
+			if _, err := io.ReadFull(c, make([]byte, alen)); err != nil {
+				return
+			}
+			ip := x.upstream.Addr().As4()
+			rep := append([]byte{5, 0, 0, 1}, ip[:]...)
+			rep = binary.BigEndian.AppendUint16(rep, x.upstream.Port())
+			c.Write(rep)
+			io.Copy(io.Discard, c)
+		}()
+	}
+}
+
 func (x *relayRun) teardown() {
+	if x.tcpLn != nil {
+		x.tcpLn.Close()
+	}
 	if x.relay != nil {
 		if !x.relay.stop() {
 			x.stopHung = true // session shutdown is C12's subject; only noted here
@@ -542,9 +695,6 @@ const waitDatagram = 5 * time.Second
 
 func ipNat(a netip.Addr) uint32 { return addrU32(a) }
 
-// pseudo address of a domain target seen INSIDE a packet for an upstream proxy
-func domNat(t int) uint32 { return 4000000000 + uint32(t) }
-
 func (x *relayRun) clientKey(ci int) int {
 	if x.c.Server == "ss2022" {
 		return 1000 + ci // the client session id
@@ -561,7 +711,11 @@ func (x *relayRun) cfgLine(shared bool) string {
 		}
 		return "0"
 	}
-	return fmt.Sprintf("cfg %d %s %s %s", relayCap, b(x.byAddr()), b(x.c.Server != "direct"), b(shared))
+	l := fmt.Sprintf("cfg %d %s %s %s", relayCap, b(x.byAddr()), b(x.c.Server != "direct"), b(shared))
+	if x.viaUpstream() {
+		l += fmt.Sprintf(" %d %d", ipNat(x.upstream.Addr()), x.upstream.Port())
+	}
+	return l
 }
 
 // observeAtTargets waits for one datagram at a target / upstream socket and classifies it.
@@ -569,8 +723,8 @@ func (x *relayRun) cfgLine(shared bool) string {
 func (x *relayRun) nextAtTargets() (t int, from netip.AddrPort, plid int, innerDom bool, ok bool) {
 	select {
 	case d := <-x.tg.ch:
-		if x.c.Client == "none" {
-			a, n, err := parseSocksAddr(d.data)
+		if x.viaUpstream() {
+			a, payload, err := x.parseUpstream(d.data, d.from)
 			if err != nil {
 				x.fail("upstream-unparsable", fmt.Sprintf("datagram at the upstream proxy does not parse: %v", err))
 				return -1, d.from, -1, false, true
@@ -581,7 +735,7 @@ func (x *relayRun) nextAtTargets() (t int, from netip.AddrPort, plid int, innerD
 					t = i
 				}
 			}
-			return t, d.from, payloadID(d.data[n:]), !a.ip.IsValid(), true
+			return t, d.from, payloadID(payload), !a.ip.IsValid(), true
 		}
 		return d.sock, d.from, payloadID(d.data), false, true
 	case <-time.After(waitDatagram):
@@ -644,21 +798,21 @@ func (x *relayRun) opSend(o RelayOp) {
 		x.script = append(x.script, fmt.Sprintf("initok %d", sid))
 		x.impl = append(x.impl, "ok")
 	}
-	// the model's uplink: for a direct client the resolver's answer; for an upstream proxy the name stays inside
+	// the model's uplink: a direct client resolves (the harness's DNS answer is an input of the model);
+	// with an upstream proxy the datagram goes to the proxy with the target inside (checked by the oracle above)
+	if x.viaUpstream() {
+		x.script = append(x.script, fmt.Sprintf("pack %d -", sid))
+		x.impl = append(x.impl, fmt.Sprintf("sent %d %d %d", ipNat(x.upstream.Addr()), x.upstream.Port(), gotPl))
+		_ = innerDom
+		return
+	}
 	ans := "-"
 	obsIP := uint32(0)
 	if gotT >= 0 {
 		obsIP = ipNat(x.taddrs[gotT])
 	}
 	if isDom {
-		if x.c.Client == "direct" {
-			ans = fmt.Sprint(ipNat(x.taddrs[t]))
-		} else {
-			ans = fmt.Sprint(domNat(t))
-			if innerDom && gotT >= 0 {
-				obsIP = domNat(gotT)
-			}
-		}
+		ans = fmt.Sprint(ipNat(x.taddrs[t]))
 	}
 	x.script = append(x.script, fmt.Sprintf("pack %d %s", sid, ans))
 	x.impl = append(x.impl, fmt.Sprintf("sent %d %d %d", obsIP, x.tport, gotPl))
@@ -678,9 +832,13 @@ func (x *relayRun) opReply(o RelayOp) {
 	data := payloadBytes(pl, x.r)
 	src := netip.AddrPortFrom(x.taddrs[o.T], x.tport)
 	dst := netip.AddrPortFrom(netip.MustParseAddr("127.0.0.1"), x.sidPort[sid])
-	if x.c.Client == "none" {
+	if x.viaUpstream() {
 		// the upstream proxy answers with the source inside
-		data = append(appendSocksAddr(nil, tAddr{ip: src.Addr(), port: src.Port()}), data...)
+		var err error
+		if data, err = x.upstreamReply(src, data, x.sidPort[sid]); err != nil {
+			x.fail("harness-upstream-encode", err.Error())
+			return
+		}
 		if _, err := x.tg.get(len(x.taddrs)).WriteToUDPAddrPort(data, dst); err != nil {
 			x.fail("harness-write", err.Error())
 		}
@@ -1081,8 +1239,8 @@ loop:
 			quiet.Reset(400 * time.Millisecond)
 			var t, pl int
 			var echo []byte
-			if x.c.Client == "none" {
-				a, k, err := parseSocksAddr(d.data)
+			if x.viaUpstream() {
+				a, payload, err := x.parseUpstream(d.data, d.from)
 				if err != nil {
 					x.fail("upstream-unparsable", err.Error())
 					continue
@@ -1093,9 +1251,12 @@ loop:
 						t = i
 					}
 				}
-				pl = payloadID(d.data[k:])
+				pl = payloadID(payload)
 				if t >= 0 {
-					echo = append(appendSocksAddr(nil, tAddr{ip: x.taddrs[t], port: x.tport}), d.data[k:]...)
+					if echo, err = x.upstreamReply(netip.AddrPortFrom(x.taddrs[t], x.tport), payload, d.from.Port()); err != nil {
+						x.fail("harness-upstream-encode", err.Error())
+						continue
+					}
 				}
 			} else {
 				t, pl, echo = d.sock, payloadID(d.data), d.data
@@ -1110,7 +1271,7 @@ loop:
 				x.fail("wrong-destination", fmt.Sprintf("under concurrency: payload %d of client %d addressed to target %d arrived at target %d", pl, f.client, f.target, t))
 				continue
 			}
-			if x.c.Client == "none" {
+			if x.viaUpstream() {
 				x.tg.get(up).WriteToUDPAddrPort(echo, d.from)
 			} else {
 				x.tg.get(t).WriteToUDPAddrPort(echo, d.from)
